@@ -3,7 +3,9 @@
 dataStoreCommand method (lock discipline C08/C16, dirty marking C19, version
 bump C10). Hand-written primitives live in zz_contracts_store_verif.go."""
 import re
-src=open('/repo/dataStoreCommands.go').read()
+import os
+REPO=os.environ.get('REPO','/repo')
+src=open(REPO+'/dataStoreCommands.go').read()
 names=re.findall(r'^func \(dsc \*dataStoreCommand\) (\w+)\(', src, re.M)
 SKIP={'findListItem','lpushUnlocked','rpushUnlocked','lpopUnlocked','rpopUnlocked','removeUnlocked','linsertBeforeUnlocked','linsertAfterUnlocked','flush','dictScanUnlocked','setModified','lock','unlock','unlockAndUnblock','acquireExclusive','releaseExclusive','getKeyObjectUnlocked','setDirty'}
 HELPERS={'setModified','diffWorker','intersectWorker','intersectWithLimitWorker','unionWorker','findListItem'}
@@ -157,6 +159,60 @@ EXTRA={
    '//@ ensures internal [C03] reply.len: err == nil && list != nil ==> len(values) == ite(old(count) < gN0, ite(old(count) < 0, 0, old(count)), gN0)',
    '//@ ensures internal [C03] reply.values: err == nil && list != nil ==> all(k, 0, len(values), values[k] == gSeq0[gN0 - 1 - k].element)',
    '//@ ensures internal [C03] rest: err == nil && list != nil ==> all(i, 0, list.count, list.seq[i] == gSeq0[i])'],
+ 'expireTime': [
+   '//@ ensures internal [C07] reported: exists && sk.expiresAt < maxTime ==> valid == 0 && expiration == sk.expiresAt',
+   '//@ ensures internal [C07] missing: !exists ==> valid == -2',
+   '//@ ensures internal [C07] no.deadline: exists && !(sk.expiresAt < maxTime) ==> valid == -1'],
+ 'persist': [
+   '//@ ensures internal [C07] cleared: output.data == respInt(1) ==> exists && sk.expiresAt == maxTime && old(sk.expiresAt) < maxTime',
+   '//@ ensures internal [C07] nothing: output.data != respInt(1) ==> output.data == respInt(0) && !mutated && !bumped',
+   '//@ ensures internal [C07] when: (exists && old(sk.expiresAt) < maxTime) == (output.data == respInt(1))'],
+ 'del': [
+   # DEL leaves none of the named keys in the keyspace and counts at most one per name
+   '//@ loop 1 invariant [C06] gone.so.far: reclaim ==> allsel(i, 0, ri1, !dsc.ds.data.vdom[keyNames[i]])',
+   '//@ loop 1 invariant [C06] counted: 0 <= count && count <= ri1 && count == gFound',
+   '//@ ghostentry gFound = 0',
+   '//@ ghostafter "sk, exists := dsc.getKeyObjectUnlocked(keyName)" : if exists : gFound = gFound + 1',
+   '//@ ensures internal [C06] counts.live: count == gFound',
+   '//@ ensures internal [C06] gone: reclaim ==> allsel(i, 0, len(keyNames), !dsc.ds.data.vdom[keyNames[i]])',
+   '//@ ensures internal [C06] reply: output.data == respInt(count) && 0 <= count && count <= len(keyNames)'],
+ 'exists': [
+   '//@ ghostentry gFound = 0',
+   '//@ ghostafter "_, exists := dsc.getKeyObjectUnlocked(keyName)" : if exists : gFound = gFound + 1',
+   '//@ loop 1 invariant [C06] counted: 0 <= count && count <= ri1 && count == gFound',
+   '//@ ensures internal [C06] counts.live: count == gFound',
+   '//@ ensures internal [C06] reply: output.data == respInt(count) && 0 <= count && count <= len(keyNames)'],
+ 'setAddWorkerUnlocked': [
+   # SADD: afterwards every named member is in the set; the reply counts only members that were not there
+   '//@ ghostentry gFound = 0',
+   '//@ ghostafter "_, exists := m.get(memberName)" : if !exists : gFound = gFound + 1',
+   '//@ loop 1 invariant [C05] members.in: m != nil && allsel(i, 0, ri1, m.vdom[memberNames[i]])',
+   '//@ loop 1 invariant [C05] added.new: added == gFound && 0 <= added && added <= ri1',
+   '//@ ensures internal [C05] members.in: !wrongType ==> allsel(i, 0, len(memberNames), m.vdom[memberNames[i]])',
+   '//@ ensures internal [C05] added.new: !wrongType ==> added == gFound && added <= len(memberNames)',
+   '//@ modifies ghost.gFound'],
+ 'setHasMember': [
+   '//@ ensures internal [C05] member: objExists && m != nil ==> output.data == respInt(ite(m.vdom[memberName], 1, 0))',
+   '//@ ensures internal [C05] missing: !objExists ==> output.data == respInt(0)'],
+ 'setHasMembers': [
+   '//@ loop 1 invariant [C05] answered: len(answers) == len(memberNames) && m != nil && allsel(i, 0, ri1, answers[i] == ite(m.vdom[memberNames[i]], 1, 0))',
+   '//@ assertafter "for idx, memberName := range memberNames" [C05] answered.all: allsel(i, 0, len(memberNames), answers[i] == ite(m.vdom[memberNames[i]], 1, 0))',
+   '//@ assertbefore "output = nativeValueToResp(answers)" [C05] missing.zero: !objExists ==> len(answers) == len(memberNames) && allsel(i, 0, len(answers), answers[i] == 0)'],
+ 'getHashTableField': [
+   # HGET / HEXISTS / HSTRLEN: the value the view binds the field to, or "does not exist"
+   '//@ ensures internal [C04] found: objExists && m != nil && m.vdom[fieldName] ==> ve == VALUE_EXISTS && istype(m.vval[fieldName], string) ==> val == unbox(m.vval[fieldName], string)',
+   '//@ ensures internal [C04] found.exists: objExists && m != nil && m.vdom[fieldName] ==> ve == VALUE_EXISTS',
+   '//@ ensures internal [C04] absent: objExists && m != nil && !m.vdom[fieldName] ==> ve == VALUE_DOESNT_EXIST',
+   '//@ ensures internal [C04] missing: !objExists ==> ve == VALUE_DOESNT_EXIST'],
+ 'getHashTableCount': [
+   '//@ ensures internal [C04] count: objExists && m != nil ==> count == m.count && !wrongType',
+   '//@ ensures internal [C04] missing: !objExists ==> count == 0 && !wrongType'],
+ 'getHashTableFieldValues': [
+   # HMGET: one answer per requested field, in request order; nil exactly for the fields the hash does not have
+   '//@ loop 1 invariant [C04] answered: len(vals) == ri1 && m != nil && allsel(i, 0, ri1, (vals[i] != nil) == m.vdom[fieldNames[i]])',
+   '//@ ensures internal [C04] one.each: !wrongType ==> len(vals) == len(fieldNames)',
+   '//@ ensures internal [C04] present: !wrongType && objExists ==> allsel(i, 0, len(fieldNames), (vals[i] != nil) == m.vdom[fieldNames[i]])',
+   '//@ ensures internal [C04] missing.nil: !objExists ==> allsel(i, 0, len(vals), vals[i] == nil)'],
  'lmpop': ['//@ loop "for _, keyName := range keyNames" invariant [C06] nomut: !mutated', '//@ loop 2 invariant [C06] noempty.left: list.count == 0 ==> !dsc.ds.data.vdom[keyName]', '//@ loop 3 invariant [C06] noempty.right: list.count == 0 ==> !dsc.ds.data.vdom[keyName]', '//@ assertbefore "result = []any{keyName, elements}" [C06] noempty: list.count == 0 ==> !dsc.ds.data.vdom[keyName]'],
  'addInt': ['//@ ghostafter "value, err = strconv.ParseInt" : gParsed = value',
             '//@ ghostafter "canonical := strconv.FormatInt(value, 10)" : gParsedOK = (err == nil && canonical)',
@@ -316,7 +372,7 @@ EXTRA={
             '//@ ensures [C02] msetnx.refused: flagHasOne(options, SET_NOT_EXIST) && gSawExisting ==> result.data == respInt(0)',
             '//@ ensures [C02] msetnx.accepted: flagHasOne(options, SET_NOT_EXIST) && !gSawExisting ==> result.data == respInt(1)',
             '//@ ensures internal [C02] all.stored: result.data != respInt(0) ==> allsel(i, 0, len(keys), dsc.ds.data.vdom[keys[i]])'],
- 'setKey': ['//@ ensures internal [C02] nx.kept: exists && flagHasOne(options, SET_NOT_EXIST) ==> !mutated',
+ 'setKey': ['// APPEND: the stored value grows by exactly the argument, placed after the old bytes', '//@ ghostentry gOldLen = 0', '//@ ghostafter "strBytes := oldSk.getStringBytes()" : gOldLen = len(strBytes)', '//@ assertbefore "newSk := dsc.ds.newStoreKeyUnlocked(keyName)" [C02] appended.len: flagHasOne(options, SET_APPEND) ==> len(argBytes) == gOldLen + len(str)', '//@ assertbefore "newSk := dsc.ds.newStoreKeyUnlocked(keyName)" [C02] replaced: !flagHasOne(options, SET_APPEND) ==> len(argBytes) == len(str) && allsel(k, 0, len(str), argBytes[k] == str[k])', '//@ ensures internal [C02] nx.kept: exists && flagHasOne(options, SET_NOT_EXIST) ==> !mutated',
             '//@ ensures internal [C02] xx.missing: !exists && flagHasOne(options, SET_EXISTS) ==> !mutated && val.data == nil',
             '//@ ensures internal [C02] get.old: exists && flagHasOne(options, bitflags(SET_GET)) && valid != VALUE_WRONG_TYPE ==> istype(val.data, respBulkString)',
             '//@ ensures internal [C02] stored: mutated ==> dsc.ds.data.vdom[keyName] && istype(dsc.ds.data.vval[keyName], *storeKey) && unbox(dsc.ds.data.vval[keyName], *storeKey) == newSk && flagHasOne(newSk.flags, FLAG_KEY_TYPE_STRING) && newSk.expiresAt == ite(exists && (flagHasOne(options, SET_KEEP_TTL) || flagHasOne(options, SET_APPEND)), old(oldSk.expiresAt), expiration)',
@@ -427,5 +483,5 @@ for n in names:
             out.append('//@ loopinv [C10] versioned.loop: mutated ==> bumped || removedKey || lookupAbsent')
             out.append('//@ loopinv [C19] dirty.loop: mutated ==> dsc.ds.data.dirty')
     out.append('')
-open('/repo/zz_contracts_storegen_verif.go','w').write("\n".join(out))
+open(REPO+'/zz_contracts_storegen_verif.go','w').write("\n".join(out))
 print(len(names),'methods')
